@@ -506,12 +506,12 @@ func (w *World) ApplyWrite(s drv.Step) *drv.Violation {
 		if wr && !bytes.Equal(val, wv) {
 			// the value Remove returns is not part of the reads the property
 			// lists; it is recorded once and the run continues
+			// (neither C19 nor C20 lists it; after a reload it is a consequence of
+			// the value-less replayed leaves, finding A): a probe, not a verdict
 			w.P.Inc("remove_value_mismatch")
-			cls := "removed-value"
 			if val == nil {
-				cls = "removed-value-nil"
+				w.P.Inc("remove_value_nil")
 			}
-			w.record(w.viol(w.Prop+".remove-result", "wrong-value", cls, fmt.Sprintf("v2 Remove(%x) returned value %s, the removed value is %x", []byte(s.K), bstr(val), wv)))
 		}
 	}
 	return nil
